@@ -173,6 +173,9 @@ func (c *caseT) classes() []string {
 			if s.Unique {
 				set[v+":tag:unique"] = true
 			}
+			if strings.Contains(s.Check, ",") {
+				set[v+":tag:check-expression-with-comma"] = true
+			}
 			if s.Check != "" {
 				if s.CheckName != "" {
 					set[v+":tag:check-named"] = true
